@@ -502,6 +502,19 @@ pub fn check_fault(c: &FaultCase, ctx: &mut Ctx) -> CheckResult {
     };
     ctx.label(format!("fault:{what}"));
     ctx.nontrivial();
+    // corruption confined to the stored settings: a settings argument supplied at load time
+    // overrides the stored one, so the file must load with a valid override and carry it
+    if let Fault::Token(kind, _) = &c.fault {
+        if matches!(*kind, 16 | 18 | 23) {
+            let so = c.st.build();
+            match load_bytes(&bytes, Some(so.clone())) {
+                Err(p) => return Err(format!("load_from_file with a valid settings override panicked on a file whose stored settings are bad ({what}): {p}")),
+                Ok(Err(e)) => return Err(format!("load_from_file with a valid settings override rejects a file only because of its stored settings ({what}): {e}")),
+                Ok(Ok(s)) => settings_equal(&s.settings, &so).map_err(|e| format!("settings supplied at load time did not override the stored ones ({what}): {e}"))?,
+            }
+            ctx.label("bad-stored-settings+override -> loads");
+        }
+    }
     match load_bytes(&bytes, None) {
         Err(p) => Err(format!("load_from_file panicked on a corrupted file ({what}): {p}")),
         Ok(Err(_)) => {
